@@ -1,6 +1,7 @@
 """Stated bounds / outside-the-claim text per property (copied into every evidence file)."""
 
-_STEP = ("in-crate step harnesses: allocation 4 bytes (Bytes states) / 8 bytes (BytesMut states), symbolic contents, view (off,len[,cap]) and "
+_STEP = ("in-crate step harnesses: allocation 4 bytes (Bytes states) / 8 bytes (BytesMut states) in the quick tier and additionally 8 / 16 bytes "
+         "in the thorough tier (flavour incrate-big), symbolic contents, view (off,len[,cap]) and "
          "reference count in 1..=usize::MAX/2, one operation per harness, arguments symbolic (request sizes over all of usize); unwind 6/10 with "
          "unwinding assertions; F-SEQ: public-API histories of 3-4 concrete operation kinds with symbolic arguments over a 4-byte buffer, <= 3 live handles")
 _STEP_OUT = ("buffers larger than 8 bytes (CBMC cannot decide symbolic offsets into objects > 64 bytes; allocation sizes must be concrete), more than "
